@@ -63,7 +63,7 @@ def project(prop, op, d):
     if prop == "C13":
         return (r, s)
     if prop == "C14":
-        return (r, _upto(d.get("enc"), L), _upto(s, L), _upto(d.get("sv"), L), d.get("pv")) if r == "1" else (r,)
+        return (r, _upto(d.get("enc"), L), _upto(s, L), _upto(d.get("sv"), L), d.get("pv"), d.get("vq")) if r == "1" else (r,)
     return tuple(sorted(d.items(), key=lambda kv: kv[0]))
 
 
